@@ -79,7 +79,7 @@ def main():
         fired = sorted(k for k, v in caught.items() if v["exit"] == 1)
         meta = {
             "name": name, "breaks_property": prop, "property_title": PROPS[prop]["title"],
-            "round": (5 if prefix == "r5_" else 4 if prefix == "r4_" else 3 if prefix == "r3_" else 2 if prefix == "r2_" else 1),
+            "round": (6 if prefix == "r6_" else 5 if prefix == "r5_" else 4 if prefix == "r4_" else 3 if prefix == "r3_" else 2 if prefix == "r2_" else 1),
             "origin": ("reverse of one of the repository repairs of DESIGN.md section 8 (a historical defect the baseline tests never noticed); written by the framework author" if own else
                        "written by an independent sub-agent that was given only the property text and a scratch worktree"),
             "needs_to_manifest": notes.strip()[:1500],
